@@ -105,6 +105,13 @@ pub fn run_cap_case(b: &CapBody) -> Result<CapOut, String> {
     let mut a = Inst::new(&b.cfg, b.cfg.ctor, h)?;
     let mut t = Inst::new(&b.cfg, b.ctor_b, h)?;
     let mut out = CapOut { fail: None, alloc_faults_fired: 0, ok_after_fault: 0, err_after_fault: 0 };
+    // with_capacity(n): "able to hold at least n elements without reallocating"
+    if let Ctor::WithCapacityAndHasher(n) | Ctor::WithCapacityAndDefaultHasher(n) = b.ctor_b {
+        if t.q.capacity() < n {
+            out.fail = Some(frec("C17", "with_capacity_too_small", format!("{:?}: capacity() = {} right after construction", b.ctor_b, t.q.capacity()), 0));
+            return Ok(out);
+        }
+    }
     for (i, st) in b.steps.iter().enumerate() {
         for (_, cap) in b.caps.iter().filter(|c| c.0 == i) {
             let before = t.cx.probes.get("alloc_fault_fired").copied().unwrap_or(0);
@@ -209,6 +216,7 @@ impl Engine for CapEngine {
             }
         };
         let ctor_b = match r2.below(4) {
+            0 if r2.chance(1, 40) => Ctor::WithCapacityAndHasher(50_000 + r2.usize(100_000)),
             0 => Ctor::WithCapacityAndHasher(r2.usize(200)),
             1 => Ctor::WithCapacityAndDefaultHasher(r2.usize(50)),
             _ => cfg.ctor,
@@ -445,8 +453,8 @@ impl Engine for HashEngine {
     fn info(&self) -> EngineInfo {
         EngineInfo {
             level: "exploration",
-            unit: "one explicit history executed under 8 hasher configurations, traces of return values compared (modulo the choice among equal priorities)",
-            rule: "hashers: 4 differently keyed SipHash states (stand-in for RandomState keys), the multiplicative no_std-style hasher through with_hasher and through with_default_hasher, the all-colliding hasher, and the real RandomState (keys from the OS: the one deliberately uncontrolled input; the comparison is on behaviour which must not depend on it). Non-trivial = a history of >= 4 steps reaching >= 3 elements; distinct = digest of the history".into(),
+            unit: "one explicit history executed under 9 hasher configurations, traces of return values compared (modulo the choice among equal priorities)",
+            rule: "hashers: 4 differently keyed SipHash states (stand-in for RandomState keys), the multiplicative no_std-style hasher through with_hasher and through with_default_hasher, the all-colliding hasher, a hasher whose hash_one is specialised to another function than build_hasher+hash+finish (as ahash's is), and the real RandomState (keys from the OS: the one deliberately uncontrolled input; the comparison is on behaviour which must not depend on it). Non-trivial = a history of >= 4 steps reaching >= 3 elements; distinct = digest of the history".into(),
             real: REAL.to_vec(),
             stubbed: STUBBED.to_vec(),
             assumptions: vec!["RandomState cannot be seeded from outside; a failure that appears only under it is replayed against fresh instances".into(), "sampling, not proof".into()],
@@ -467,8 +475,8 @@ impl Engine for HashEngine {
         cfg.len = cfg.len.min(60);
         cfg.hasher = HasherKind::Seeded(rng.next(), rng.next());
         cfg.weights[Fam::IterMutLeak as usize] = 0;
-        let hashers = vec![cfg.hasher, HasherKind::Seeded(rng.next(), rng.next()), HasherKind::Seeded(0, 0), HasherKind::Seeded(u64::MAX, rng.next()), HasherKind::Mul, HasherKind::Mul, HasherKind::Collide, HasherKind::Random];
-        let ctors = vec![cfg.ctor, Ctor::WithHasher, Ctor::WithCapacityAndHasher(3), Ctor::Default, Ctor::WithHasher, Ctor::WithDefaultHasher, Ctor::WithHasher, Ctor::Default];
+        let hashers = vec![cfg.hasher, HasherKind::Seeded(rng.next(), rng.next()), HasherKind::Seeded(0, 0), HasherKind::Seeded(u64::MAX, rng.next()), HasherKind::Mul, HasherKind::Mul, HasherKind::Collide, HasherKind::Random, HasherKind::Special];
+        let ctors = vec![cfg.ctor, Ctor::WithHasher, Ctor::WithCapacityAndHasher(3), Ctor::Default, Ctor::WithHasher, Ctor::WithDefaultHasher, Ctor::WithHasher, Ctor::Default, Ctor::WithHasher];
         let steps = match gen_history(rng, &cfg, C18) {
             Some(s) => s,
             None => {
@@ -499,6 +507,7 @@ impl Engine for HashEngine {
                         HasherKind::Mul => "hasher_multiplicative",
                         HasherKind::Collide => "hasher_all_colliding",
                         HasherKind::Random => "hasher_real_random_state",
+                        HasherKind::Special => "hasher_with_specialised_hash_one",
                     }, 1);
                 }
                 acc.bump("counters", "tie_divergences", out.tie_divergences);
@@ -667,6 +676,7 @@ pub fn run_clone_case(b: &CloneBody) -> Result<Option<FailRec>, String> {
         0 => HasherKind::Mul,
         1 => HasherKind::Collide,
         2 => HasherKind::Random,
+        3 if r.chance(1, 2) => HasherKind::Special,
         _ => HasherKind::Seeded(r.next(), r.next()),
     };
     hashers::set_current(h2);
@@ -712,6 +722,35 @@ pub fn run_clone_case(b: &CloneBody) -> Result<Option<FailRec>, String> {
     let e3 = guarded(|| (t3.eq_q(&o), t3.eq_q(&a.q))).map_err(|e| format!("eq panicked: {:?}", e))?;
     if e3 != (true, true) {
         return Ok(Some(frec("C14", "eq_not_transitive", format!("x == y and y == z but x == z is {}", e3.1), b.steps.len())));
+    }
+    // clone_from onto a queue that already compares equal but is arranged differently must still
+    // produce a true clone: same extraction sequence as the source, ties included
+    {
+        let mut d = o.clone();
+        d.clone_from_q(&a.q);
+        let mut s2 = a.q.clone();
+        let same = guarded(|| {
+            let mut ok = true;
+            let mut i = 0u64;
+            loop {
+                let e = if i % 2 == 0 { End::Max } else { End::Min };
+                i += 1;
+                let x = d.pop(e).map(|(k, p)| (k.id(), p.v));
+                let y = s2.pop(e).map(|(k, p)| (k.id(), p.v));
+                if x != y {
+                    ok = false;
+                    break;
+                }
+                if x.is_none() {
+                    break;
+                }
+            }
+            ok
+        })
+        .unwrap_or(false);
+        if !same {
+            return Ok(Some(frec("C14", "clone_from_behaves_differently", "dst.clone_from(&src) onto a dst that already compared equal to src (other history): dst and src then extract their elements in different orders".into(), b.steps.len())));
+        }
     }
     // neighbours: one priority different / one item different => unequal, both directions
     if let Some(first) = order.first() {
